@@ -79,7 +79,8 @@ func deliverToSubscription(
 		SetPublishedAt(now).
 		SetAttemptAt(now.Add(time.Duration(s.DeliveryDelay)))
 	if s.OrderedDelivery && m.OrderKey != nil && *m.OrderKey != "" {
-		// set the delivery NotBefore the most recent non-expired delivery
+		// set the delivery NotBefore the most recent non-expired delivery with the
+		// same order key: messages with other keys (or no key) impose no ordering
 		lastDelivery, err := tx.Subscription.QueryDeliveries(s).
 			Where(
 				delivery.ExpiresAtGT(now),
@@ -91,6 +92,7 @@ func deliverToSubscription(
 					s.Where(sql.And(
 						// not necessary? maybe helps with indexes?
 						sql.EQ(t.C(message.TopicColumn), m.TopicID),
+						sql.EQ(t.C(message.FieldOrderKey), *m.OrderKey),
 					))
 				},
 			).
